@@ -1,8 +1,10 @@
 /-
-Registries the gateway can reach from received messages satisfy C13's hypothesis `RegOK`.
+Registries the gateway can reach from received messages satisfy C13's hypothesis `RegOK`, and the
+text layer's additional hypothesis `regIntsOK` (every stored integer is printable).
 
-A small Hoare logic over the handler monad `M` (`HRet x Q`: `x` keeps the registry loadable whatever
-its outcome, and a value it returns satisfies `Q`), one lemma per combinator, per handler body and
+A small Hoare logic over the handler monad `M`, generic in the registry invariant `I`
+(`HRetI I x Q`: `x` keeps `I` whatever its outcome, and a value it returns satisfies `Q`;
+`HRet` = the instance `I := RegOK`), one lemma per combinator, per handler body and
 per decorator, induction over the layers of a resolved handler chain, then over the history.
 Nothing here depends on WHICH chain the translator resolved for a command or type: every body and
 every decorator keeps the invariant, so every chain does.  What the proof does depend on: the range
@@ -12,6 +14,7 @@ check in `hBattery` (F9), `decode`'s node-id range, `int()`'s digit limit, and
 import AioMySensors.Lemmas.Persist
 import AioMySensors.Model.Gateway
 import AioMySensors.Model.Handlers
+import AioMySensors.Model.JsonText
 
 namespace AioMySensors
 open M Persist
@@ -181,27 +184,42 @@ theorem decode_msgOK (v : Ver) (line : Str) (m : Msg) (h : decode v line = some 
     · cases h
   · cases h
 
-/-! ### A small Hoare logic for the registry invariant -/
+/-! ### A small Hoare logic for a registry invariant
+
+The logic is generic in the invariant `I` of the registry: the combinators, everything that only writes
+to the transport or to the buffers, both decorators, the layers and the dispatch structure are proved
+once for every `I`; what depends on the invariant are the handlers that read or store a node record.
+Two instances: `RegOK` (`HRet` / `HPres`, C13's value-level hypothesis) and `regIntsOK` (the integers
+`json.dumps` has to print, further down). -/
+
+/-- `x` keeps the registry invariant `I` whatever its outcome, and a value it returns satisfies `Q`. -/
+structure HRetI (I : PDict Int Node → Prop) {α : Type} (x : M α) (Q : α → Prop) : Prop where
+  inv : ∀ w, I w.st.nodes → I (x w).2.st.nodes
+  ret : ∀ w a, I w.st.nodes → (x w).1 = .ok a → Q a
+
+/-- `x` keeps the invariant `I`. -/
+abbrev HPresI (I : PDict Int Node → Prop) {α : Type} (x : M α) : Prop := HRetI I x fun _ => True
 
 /-- `x` keeps the registry loadable whatever its outcome, and a value it returns satisfies `Q`. -/
-structure HRet {α : Type} (x : M α) (Q : α → Prop) : Prop where
-  inv : ∀ w, RegOK w.st.nodes → RegOK (x w).2.st.nodes
-  ret : ∀ w a, RegOK w.st.nodes → (x w).1 = .ok a → Q a
+abbrev HRet {α : Type} (x : M α) (Q : α → Prop) : Prop := HRetI RegOK x Q
 
 /-- `x` keeps the registry loadable. -/
 abbrev HPres {α : Type} (x : M α) : Prop := HRet x fun _ => True
 
-theorem ret_pure {α : Type} {Q : α → Prop} (a : α) (h : Q a) : HRet (pure a) Q :=
+section generic
+variable {I : PDict Int Node → Prop}
+
+theorem ret_pure {α : Type} {Q : α → Prop} (a : α) (h : Q a) : HRetI I (pure a) Q :=
   ⟨fun _ hw => hw, fun _ _ _ he => by cases he; exact h⟩
 
-theorem ret_raise {α : Type} {Q : α → Prop} (e : Exn) : HRet (raise e : M α) Q :=
+theorem ret_raise {α : Type} {Q : α → Prop} (e : Exn) : HRetI I (raise e : M α) Q :=
   ⟨fun _ hw => hw, fun _ _ _ he => by cases he⟩
 
-theorem ret_weaken {α : Type} {Q R : α → Prop} {x : M α} (h : HRet x Q) (hq : ∀ a, Q a → R a) : HRet x R :=
+theorem ret_weaken {α : Type} {Q R : α → Prop} {x : M α} (h : HRetI I x Q) (hq : ∀ a, Q a → R a) : HRetI I x R :=
   ⟨h.inv, fun w a hw he => hq a (h.ret w a hw he)⟩
 
 theorem ret_bind {α β : Type} {Q : α → Prop} {R : β → Prop} {x : M α} {f : α → M β}
-    (hx : HRet x Q) (hf : ∀ a, Q a → HRet (f a) R) : HRet (bind x f) R := by
+    (hx : HRetI I x Q) (hf : ∀ a, Q a → HRetI I (f a) R) : HRetI I (bind x f) R := by
   constructor
   · intro w hw
     have h1 := hx.inv w hw
@@ -224,16 +242,17 @@ theorem ret_bind {α β : Type} {Q : α → Prop} {R : β → Prop} {x : M α} {
       | error e => intro he; cases he
       | ok a => exact (hf a (h2 a hw rfl)).ret w' b h1
 
-theorem ret_seq {β : Type} {R : β → Prop} {x : M Unit} {y : M β} (hx : HPres x) (hy : HRet y R) : HRet (seq x y) R :=
+theorem ret_seq {β : Type} {R : β → Prop} {x : M Unit} {y : M β} (hx : HPresI I x) (hy : HRetI I y R) :
+    HRetI I (seq x y) R :=
   ret_bind hx fun _ _ => hy
 
-theorem ret_getSt : HRet getSt fun st => RegOK st.nodes :=
+theorem ret_getSt : HRetI I getSt fun st => I st.nodes :=
   ⟨fun _ hw => hw, fun w a hw he => by cases he; exact hw⟩
 
-theorem pres_modifySt (f : St → St) (h : ∀ s, RegOK s.nodes → RegOK (f s).nodes) : HPres (modifySt f) :=
+theorem pres_modifySt (f : St → St) (h : ∀ s, I s.nodes → I (f s).nodes) : HPresI I (modifySt f) :=
   ⟨fun w hw => h w.st hw, fun _ _ _ _ => trivial⟩
 
-theorem pres_transportWrite (line : Str) : HPres (transportWrite line) := by
+theorem pres_transportWrite (line : Str) : HPresI I (transportWrite line) := by
   constructor
   · intro w hw
     simp only [M.transportWrite]
@@ -241,13 +260,13 @@ theorem pres_transportWrite (line : Str) : HPres (transportWrite line) := by
   · intros; trivial
 
 theorem ret_convertExn {α : Type} {Q : α → Prop} (classes : List PyExn) (e : LibErr) (x : Except PyExn α)
-    (h : ∀ a, x = .ok a → Q a) : HRet (convertExn classes e x) Q := by
+    (h : ∀ a, x = .ok a → Q a) : HRetI I (convertExn classes e x) Q := by
   cases x with
   | ok a => exact ret_pure a (h a rfl)
   | error c => simp only [convertExn]; split <;> exact ret_raise _
 
-theorem pres_tryFinally {α : Type} {x : M α} {fin : Except Exn α → M Unit} (hx : HPres x) (hf : ∀ r, HPres (fin r)) :
-    HPres (tryFinally x fin) := by
+theorem pres_tryFinally {α : Type} {x : M α} {fin : Except Exn α → M Unit} (hx : HPresI I x) (hf : ∀ r, HPresI I (fin r)) :
+    HPresI I (tryFinally x fin) := by
   constructor
   · intro w hw
     simp only [M.tryFinally]
@@ -265,8 +284,8 @@ theorem pres_tryFinally {α : Type} {x : M α} {fin : Except Exn α → M Unit} 
         | error e => exact h2
   · intros; trivial
 
-theorem pres_tryCatch {α : Type} {x : M α} {h : Exn → Option (M α)} (hx : HPres x) (hh : ∀ e k, h e = some k → HPres k) :
-    HPres (tryCatch x h) := by
+theorem pres_tryCatch {α : Type} {x : M α} {h : Exn → Option (M α)} (hx : HPresI I x) (hh : ∀ e k, h e = some k → HPresI I k) :
+    HPresI I (tryCatch x h) := by
   constructor
   · intro w hw
     simp only [M.tryCatch]
@@ -283,13 +302,13 @@ theorem pres_tryCatch {α : Type} {x : M α} {h : Exn → Option (M α)} (hx : H
         | some k => exact (hh e k hk).inv w' h1
   · intros; trivial
 
-theorem pres_pure {α : Type} (a : α) : HPres (pure a : M α) := ret_pure a trivial
+theorem pres_pure {α : Type} (a : α) : HPresI I (pure a : M α) := ret_pure a trivial
 
-theorem pres_of_ret {α : Type} {Q : α → Prop} {x : M α} (h : HRet x Q) : HPres x := ret_weaken h fun _ _ => trivial
+theorem pres_of_ret {α : Type} {Q : α → Prop} {x : M α} (h : HRetI I x Q) : HPresI I x := ret_weaken h fun _ _ => trivial
 
-/-! ### Every handler keeps the registry loadable -/
+/-! ### What does not touch the registry keeps every invariant -/
 
-theorem pres_gwSend (m : Msg) (b : Bool) : HPres (gwSend m b) := by
+theorem pres_gwSend (m : Msg) (b : Bool) : HPresI I (gwSend m b) := by
   refine ret_bind ret_getSt fun st _ => ?_
   split
   · exact ret_raise _
@@ -301,10 +320,164 @@ theorem pres_gwSend (m : Msg) (b : Bool) : HPres (gwSend m b) := by
       · exact pres_transportWrite _
     · exact pres_transportWrite _
 
-theorem pres_apiSend (obj : Option Msg) (b : Bool) : HPres (apiSend obj b) := by
+theorem pres_apiSend (obj : Option Msg) (b : Bool) : HPresI I (apiSend obj b) := by
   cases obj with
   | none => exact ret_raise _
   | some m => exact pres_gwSend m b
+
+/-- Looking a node up changes nothing. -/
+theorem pres_requireNode (id : Int) : HPresI I (requireNode id) := by
+  refine ret_bind ret_getSt fun st _ => ?_
+  split
+  · exact pres_pure _
+  · exact ret_raise _
+
+theorem pres_flushList (l : List (Key × Msg)) : HPresI I (flushList l) := by
+  induction l with
+  | nil => exact pres_pure _
+  | cons p rest ih =>
+    obtain ⟨k, bm⟩ := p
+    refine ret_seq (pres_gwSend _ _) (ret_seq (pres_modifySt _ fun s hs => ?_) ih)
+    split <;> exact hs
+
+theorem pres_flush (m : Msg) : HPresI I (flush m) :=
+  ret_bind ret_getSt fun _ _ => ret_seq (pres_flushList _) (pres_pure _)
+
+theorem pres_hVersion (m : Msg) : HPresI I (hVersion m) :=
+  ret_bind (ret_convertExn (Q := fun _ => True) _ _ _ fun _ _ => trivial) fun _ _ =>
+    ret_seq (pres_modifySt _ fun _ hs => hs) (pres_pure _)
+
+theorem pres_heartbeatValue (classes : List PyExn) (m : Msg) : HPresI I (heartbeatValue classes m) :=
+  ret_convertExn _ _ _ fun _ _ => trivial
+
+theorem pres_hConfig (env : Env) (m : Msg) : HPresI I (hConfig env m) := ret_seq (pres_gwSend _ _) (pres_pure _)
+theorem pres_hTime (env : Env) (m : Msg) : HPresI I (hTime env m) := ret_seq (pres_gwSend _ _) (pres_pure _)
+theorem pres_hGatewayReady (m : Msg) : HPresI I (hGatewayReady m) := ret_seq (pres_gwSend _ _) (pres_pure _)
+theorem pres_hDiscoverResponse (m : Msg) : HPresI I (hDiscoverResponse m) :=
+  ret_bind (pres_requireNode _) fun _ _ => pres_pure _
+
+theorem pres_hReq (m : Msg) : HPresI I (hReq m) := by
+  refine ret_bind (pres_requireNode _) fun node _ => ?_
+  split
+  · exact ret_raise _
+  · split
+    · exact ret_seq (pres_gwSend _ _) (pres_pure _)
+    · exact pres_pure _
+
+theorem pres_wrapMissingPV (inner : Msg → M Msg) (m : Msg) (h : HPresI I (inner m)) : HPresI I (wrapMissingPV inner m) :=
+  pres_tryFinally h fun r => by
+    cases r <;> exact ret_bind ret_getSt fun _ _ => by
+      simp only []
+      split
+      · exact pres_gwSend _ _
+      · exact pres_pure _
+
+theorem pres_wrapMissingNC (inner : Msg → M Msg) (m : Msg) (h : HPresI I (inner m)) : HPresI I (wrapMissingNC inner m) := by
+  refine pres_tryCatch h fun e k hk => ?_
+  split at hk
+  · cases hk
+    refine ret_bind ret_getSt fun _ _ => ?_
+    split
+    · exact ret_raise _
+    · exact ret_seq (pres_gwSend _ _) (ret_seq (pres_modifySt _ fun _ hs => hs) (ret_raise _))
+  · cases hk
+
+theorem pres_runPre (b : Body) (m : Msg) : HPresI I (runPre b m) := by
+  cases b <;> simp only [runPre] <;> first
+    | exact ret_raise _
+    | (refine pres_modifySt _ fun s hs => ?_; split <;> exact hs)
+
+theorem pres_applyLayers (layers : List Layer) (base : Msg → M Msg) (m : Msg) (hb : HPresI I (base m)) :
+    HPresI I (applyLayers layers base m) := by
+  induction layers with
+  | nil => exact hb
+  | cons l ls ih =>
+    cases l with
+    | wrap w =>
+      cases w with
+      | missingPV => exact pres_wrapMissingPV _ m ih
+      | missingNC => exact pres_wrapMissingNC _ m ih
+    | pre b => exact ret_seq (pres_runPre b m) ih
+
+/-! ### The dispatch structure, for any invariant the leaf handlers and the presentation handler keep -/
+
+/-- Every leaf handler keeps `I` on a message `decode` produced. -/
+def LeavesKeep (I : PDict Int Node → Prop) : Prop :=
+  ∀ (env : Env) (b : Body) (f : Msg → M Msg), runLeaf env b = some f → ∀ m, MsgOK m → HPresI I (f m)
+
+theorem presI_runInner (hl : LeavesKeep I) (env : Env) (ch : Chain) (m : Msg) (hm : MsgOK m) : HPresI I (runInner env ch m) := by
+  cases hr : runLeaf env ch.base with
+  | some f => simp only [runInner, hr]; exact pres_applyLayers _ _ m (hl env _ f hr m hm)
+  | none => simp only [runInner, hr]; exact ret_raise _
+
+theorem presI_runTyped (hl : LeavesKeep I) (env : Env) (ch : Option Chain) (m : Msg) (hm : MsgOK m) :
+    HPresI I (runTyped env ch m) := by
+  cases ch with
+  | none => exact pres_pure _
+  | some ch => exact presI_runInner hl env ch m hm
+
+theorem presI_hInternal (hl : LeavesKeep I) (env : Env) (v : Ver) (m : Msg) (hm : MsgOK m) : HPresI I (hInternal env v m) := by
+  simp only [hInternal]
+  split
+  · exact ret_raise _
+  · exact presI_runTyped hl env _ m hm
+
+theorem presI_hStream (hl : LeavesKeep I) (env : Env) (v : Ver) (m : Msg) (hm : MsgOK m) : HPresI I (hStream env v m) := by
+  refine ret_bind (pres_requireNode _) fun _ _ => ?_
+  split
+  · exact ret_raise _
+  · exact presI_runTyped hl env _ m hm
+
+theorem presI_runBase (hl : LeavesKeep I) (hp : ∀ env v m, MsgOK m → HPresI I (hPresentation env v m))
+    (env : Env) (v : Ver) (b : Body) (m : Msg) (hm : MsgOK m) : HPresI I (runBase env v b m) := by
+  cases hb : runLeaf env b with
+  | some f =>
+    have hf := hl env b f hb m hm
+    cases b <;> simp only [runLeaf, reduceCtorEq] at hb <;> simp only [runBase, runLeaf] <;> first
+      | exact hp env v m hm
+      | exact presI_hInternal hl env v m hm
+      | exact presI_hStream hl env v m hm
+      | (cases hb; exact hf)
+  | none =>
+    cases b <;> simp only [runLeaf, reduceCtorEq] at hb <;> simp only [runBase, runLeaf] <;> first
+      | exact hp env v m hm
+      | exact presI_hInternal hl env v m hm
+      | exact presI_hStream hl env v m hm
+      | exact ret_raise _
+
+theorem presI_dispatch (hl : LeavesKeep I) (hp : ∀ env v m, MsgOK m → HPresI I (hPresentation env v m))
+    (env : Env) (v : Ver) (m : Msg) (hm : MsgOK m) : HPresI I (dispatch env v m) := by
+  simp only [dispatch]
+  split
+  · exact ret_raise _
+  · next ch _ => exact pres_applyLayers _ _ m (presI_runBase hl hp env v ch.base m hm)
+
+theorem presI_recv (hl : LeavesKeep I) (hp : ∀ env v m, MsgOK m → HPresI I (hPresentation env v m))
+    (env : Env) (line : Str) : HPresI I (recv env line) := by
+  refine ret_bind ret_getSt fun st _ => ?_
+  split
+  · exact ret_raise _
+  · next m hd => exact presI_dispatch hl hp env st.proto m (decode_msgOK _ _ m hd)
+
+/-- An invariant every received line and every send keeps holds after every history. -/
+theorem stateAfter_inv (hr : ∀ env line, HPresI I (recv env line)) (st : St) (ops : List Op) (h : I st.nodes) :
+    I (stateAfter st ops).nodes := by
+  induction ops generalizing st with
+  | nil => simpa [stateAfter, run] using h
+  | cons op rest ih =>
+    have hstep : I (stepOp st op).1.nodes := by
+      cases op with
+      | recv env line faults =>
+        have := (hr env line).inv { st := st, faults := faults } h
+        simp only [stepOp]; split <;> simp_all
+      | send obj buffer faults =>
+        have := (pres_apiSend (I := I) obj buffer).inv { st := st, faults := faults } h
+        simp only [stepOp]; split <;> simp_all
+    simpa [stateAfter, run] using ih _ hstep
+
+end generic
+
+/-! ### Every handler keeps the registry loadable -/
 
 theorem ret_requireNode (id : Int) : HRet (requireNode id) fun n => NodeOK id n := by
   refine ret_bind ret_getSt fun st hst => ?_
@@ -314,21 +487,6 @@ theorem ret_requireNode (id : Int) : HRet (requireNode id) fun n => NodeOK id n 
 
 theorem pres_setNode (id : Int) (n : Node) (h : NodeOK id n) : HPres (setNode id n) :=
   pres_modifySt _ fun s hs => regOK_set s.nodes id n hs h
-
-theorem pres_flushList (l : List (Key × Msg)) : HPres (flushList l) := by
-  induction l with
-  | nil => exact pres_pure _
-  | cons p rest ih =>
-    obtain ⟨k, bm⟩ := p
-    refine ret_seq (pres_gwSend _ _) (ret_seq (pres_modifySt _ fun s hs => ?_) ih)
-    split <;> exact hs
-
-theorem pres_flush (m : Msg) : HPres (flush m) :=
-  ret_bind ret_getSt fun _ _ => ret_seq (pres_flushList _) (pres_pure _)
-
-theorem pres_hVersion (m : Msg) : HPres (hVersion m) :=
-  ret_bind (ret_convertExn (Q := fun _ => True) _ _ _ fun _ _ => trivial) fun _ _ =>
-    ret_seq (pres_modifySt _ fun _ hs => hs) (pres_pure _)
 
 theorem foldl_max_ge (ks : List Int) (k : Int) : k ≤ ks.foldl max k := by
   induction ks generalizing k with
@@ -366,7 +524,7 @@ theorem pres_hIdRequest (m : Msg) : HPres (hIdRequest m) := by
         nodeOK_fresh _ _ _ (nextId_ge_min _ hw) (by omega)
       have hreg : RegOK (w.st.nodes.set (nextId w.st.nodes) placeholderNode) := regOK_set w.st.nodes _ _ hw hfresh
       simp only [M.seq, M.bind, allocNode, M.modifySt]
-      exact (ret_seq (pres_gwSend ⟨m.node, m.child, m.cmd, 0, Gen.iIdResponse, dec (nextId w.st.nodes)⟩ Gen.bufIdResponse)
+      exact (ret_seq (I := RegOK) (pres_gwSend ⟨m.node, m.child, m.cmd, 0, Gen.iIdResponse, dec (nextId w.st.nodes)⟩ Gen.bufIdResponse)
         (pres_pure m)).inv { w with st := { w.st with nodes := w.st.nodes.set (nextId w.st.nodes) placeholderNode } } hreg
   · intros; trivial
 
@@ -390,9 +548,6 @@ theorem pres_hSketchVersion (m : Msg) : HPres (hSketchVersion m) :=
   ret_bind (ret_requireNode _) fun node hn =>
     ret_seq (pres_setNode _ _ (nodeOK_congr _ node _ hn rfl rfl)) (pres_pure _)
 
-theorem pres_heartbeatValue (classes : List PyExn) (m : Msg) : HPres (heartbeatValue classes m) :=
-  ret_convertExn _ _ _ fun _ _ => trivial
-
 theorem pres_hHeartbeat20 (m : Msg) : HPres (hHeartbeat20 m) :=
   ret_bind (ret_requireNode _) fun node hn =>
     ret_bind (pres_heartbeatValue _ _) fun _ _ =>
@@ -407,12 +562,6 @@ theorem pres_hPreSleep22 (m : Msg) : HPres (hPreSleep22 m) :=
   ret_bind (ret_requireNode _) fun node hn =>
     ret_seq (pres_setNode _ _ (nodeOK_congr _ node _ hn rfl rfl)) (pres_flush _)
 
-theorem pres_hConfig (env : Env) (m : Msg) : HPres (hConfig env m) := ret_seq (pres_gwSend _ _) (pres_pure _)
-theorem pres_hTime (env : Env) (m : Msg) : HPres (hTime env m) := ret_seq (pres_gwSend _ _) (pres_pure _)
-theorem pres_hGatewayReady (m : Msg) : HPres (hGatewayReady m) := ret_seq (pres_gwSend _ _) (pres_pure _)
-theorem pres_hDiscoverResponse (m : Msg) : HPres (hDiscoverResponse m) :=
-  ret_bind (ret_requireNode _) fun _ _ => pres_pure _
-
 theorem pres_hSet (m : Msg) (hm : MsgOK m) : HPres (hSet m) := by
   refine ret_bind (ret_requireNode _) fun node hn => ?_
   split
@@ -421,14 +570,6 @@ theorem pres_hSet (m : Msg) (hm : MsgOK m) : HPres (hSet m) := by
     have hcok := hn.children (m.child, child) (PDict.mem_of_get? _ _ _ hc)
     refine ret_seq (pres_setNode _ _ (nodeOK_setChild _ node _ _ hn ⟨hcok.key_ok, valuesOK_set _ _ _ hcok.values hm.type⟩)) ?_
     split
-    · exact ret_seq (pres_gwSend _ _) (pres_pure _)
-    · exact pres_pure _
-
-theorem pres_hReq (m : Msg) : HPres (hReq m) := by
-  refine ret_bind (ret_requireNode _) fun node _ => ?_
-  split
-  · exact ret_raise _
-  · split
     · exact ret_seq (pres_gwSend _ _) (pres_pure _)
     · exact pres_pure _
 
@@ -450,50 +591,13 @@ theorem pres_runLeaf (env : Env) (b : Body) (f : Msg → M Msg) (h : runLeaf env
   · exact pres_hHeartbeat22 m
   · exact pres_hPreSleep22 m
 
-theorem pres_wrapMissingPV (inner : Msg → M Msg) (m : Msg) (h : HPres (inner m)) : HPres (wrapMissingPV inner m) :=
-  pres_tryFinally h fun r => by
-    cases r <;> exact ret_bind ret_getSt fun _ _ => by
-      simp only []
-      split
-      · exact pres_gwSend _ _
-      · exact pres_pure _
+theorem regOK_leaves : LeavesKeep RegOK := pres_runLeaf
 
-theorem pres_wrapMissingNC (inner : Msg → M Msg) (m : Msg) (h : HPres (inner m)) : HPres (wrapMissingNC inner m) := by
-  refine pres_tryCatch h fun e k hk => ?_
-  split at hk
-  · cases hk
-    refine ret_bind ret_getSt fun _ _ => ?_
-    split
-    · exact ret_raise _
-    · exact ret_seq (pres_gwSend _ _) (ret_seq (pres_modifySt _ fun _ hs => hs) (ret_raise _))
-  · cases hk
+theorem pres_runInner (env : Env) (ch : Chain) (m : Msg) (hm : MsgOK m) : HPres (runInner env ch m) :=
+  presI_runInner regOK_leaves env ch m hm
 
-theorem pres_runPre (b : Body) (m : Msg) : HPres (runPre b m) := by
-  cases b <;> simp only [runPre] <;> first
-    | exact ret_raise _
-    | (refine pres_modifySt _ fun s hs => ?_; split <;> exact hs)
-
-theorem pres_applyLayers (layers : List Layer) (base : Msg → M Msg) (m : Msg) (hb : HPres (base m)) :
-    HPres (applyLayers layers base m) := by
-  induction layers with
-  | nil => exact hb
-  | cons l ls ih =>
-    cases l with
-    | wrap w =>
-      cases w with
-      | missingPV => exact pres_wrapMissingPV _ m ih
-      | missingNC => exact pres_wrapMissingNC _ m ih
-    | pre b => exact ret_seq (pres_runPre b m) ih
-
-theorem pres_runInner (env : Env) (ch : Chain) (m : Msg) (hm : MsgOK m) : HPres (runInner env ch m) := by
-  cases hr : runLeaf env ch.base with
-  | some f => simp only [runInner, hr]; exact pres_applyLayers _ _ m (pres_runLeaf env _ f hr m hm)
-  | none => simp only [runInner, hr]; exact ret_raise _
-
-theorem pres_runTyped (env : Env) (ch : Option Chain) (m : Msg) (hm : MsgOK m) : HPres (runTyped env ch m) := by
-  cases ch with
-  | none => exact pres_pure _
-  | some ch => exact pres_runInner env ch m hm
+theorem pres_runTyped (env : Env) (ch : Option Chain) (m : Msg) (hm : MsgOK m) : HPres (runTyped env ch m) :=
+  presI_runTyped regOK_leaves env ch m hm
 
 theorem pres_hPresentation (env : Env) (v : Ver) (m : Msg) (hm : MsgOK m) : HPres (hPresentation env v m) := by
   simp only [hPresentation]
@@ -506,48 +610,23 @@ theorem pres_hPresentation (env : Env) (v : Ver) (m : Msg) (hm : MsgOK m) : HPre
     exact ret_seq (pres_setNode _ _ (nodeOK_setChild _ node _ _ hn
       ⟨hm.child, by simp [PDict.keys], by simp [PDict.keys]⟩)) (pres_pure _)
 
-theorem pres_hInternal (env : Env) (v : Ver) (m : Msg) (hm : MsgOK m) : HPres (hInternal env v m) := by
-  simp only [hInternal]
-  split
-  · exact ret_raise _
-  · exact pres_runTyped env _ m hm
+theorem pres_hInternal (env : Env) (v : Ver) (m : Msg) (hm : MsgOK m) : HPres (hInternal env v m) :=
+  presI_hInternal regOK_leaves env v m hm
 
-theorem pres_hStream (env : Env) (v : Ver) (m : Msg) (hm : MsgOK m) : HPres (hStream env v m) := by
-  refine ret_bind (ret_requireNode _) fun _ _ => ?_
-  split
-  · exact ret_raise _
-  · exact pres_runTyped env _ m hm
+theorem pres_hStream (env : Env) (v : Ver) (m : Msg) (hm : MsgOK m) : HPres (hStream env v m) :=
+  presI_hStream regOK_leaves env v m hm
 
-theorem pres_runBase (env : Env) (v : Ver) (b : Body) (m : Msg) (hm : MsgOK m) : HPres (runBase env v b m) := by
-  cases hb : runLeaf env b with
-  | some f =>
-    have hf := pres_runLeaf env b f hb m hm
-    cases b <;> simp only [runLeaf, reduceCtorEq] at hb <;> simp only [runBase, runLeaf] <;> first
-      | exact pres_hPresentation env v m hm
-      | exact pres_hInternal env v m hm
-      | exact pres_hStream env v m hm
-      | (cases hb; exact hf)
-  | none =>
-    cases b <;> simp only [runLeaf, reduceCtorEq] at hb <;> simp only [runBase, runLeaf] <;> first
-      | exact pres_hPresentation env v m hm
-      | exact pres_hInternal env v m hm
-      | exact pres_hStream env v m hm
-      | exact ret_raise _
+theorem pres_runBase (env : Env) (v : Ver) (b : Body) (m : Msg) (hm : MsgOK m) : HPres (runBase env v b m) :=
+  presI_runBase regOK_leaves pres_hPresentation env v b m hm
 
 /-- Whatever chain the translator resolves for a command, the dispatched handler keeps the registry
 loadable (no fact about the generated chain tables is needed). -/
-theorem pres_dispatch (env : Env) (v : Ver) (m : Msg) (hm : MsgOK m) : HPres (dispatch env v m) := by
-  simp only [dispatch]
-  split
-  · exact ret_raise _
-  · next ch _ => exact pres_applyLayers _ _ m (pres_runBase env v ch.base m hm)
+theorem pres_dispatch (env : Env) (v : Ver) (m : Msg) (hm : MsgOK m) : HPres (dispatch env v m) :=
+  presI_dispatch regOK_leaves pres_hPresentation env v m hm
 
 /-- One iteration of `Gateway.listen`. -/
-theorem pres_recv (env : Env) (line : Str) : HPres (recv env line) := by
-  refine ret_bind ret_getSt fun st _ => ?_
-  split
-  · exact ret_raise _
-  · next m hd => exact pres_dispatch env st.proto m (decode_msgOK _ _ m hd)
+theorem pres_recv (env : Env) (line : Str) : HPres (recv env line) :=
+  presI_recv regOK_leaves pres_hPresentation env line
 
 /-- **What `handle_i_battery_level` does to the state**: nothing, or it stores, in the node that
 sent the report, a level within `[Gen.minBattery, Gen.maxBattery]` — the range of the schema's
@@ -588,5 +667,161 @@ theorem runOps_regOK (st : St) (ops : List Op) (h : RegOK st.nodes) : RegOK (run
   induction ops generalizing st with
   | nil => simpa [runOps, stateAfter, run] using h
   | cons op rest ih => simpa [runOps, stateAfter, run] using ih _ (stepOp_regOK st op h)
+
+/-! ### Every integer the handlers store can be printed
+
+`regIntsOK` (`Model/JsonText.lean`): node type, heartbeat, child id and child type of every record render
+within the interpreter's digit limit (`str(int)` / `json.dumps` count the digits of the absolute value;
+the sign is not counted, and `intOK` does not count it).  Every such integer a handler stores is a
+field `decode` read with `int()` (`MsgOK`, `pyInt?_keyOK`: at most `Gen.pyMaxStrDigits` digits were
+read, so the value is below `10 ^ Gen.pyMaxStrDigits`), the heartbeat payload read the same way, the
+constants of the placeholder node, or the default 0. -/
+
+/-- The registry's non-key integers are printable. -/
+def IntsOK (r : PDict Int Node) : Prop := regIntsOK r = true
+
+theorem intsOK_iff (r : PDict Int Node) : IntsOK r ↔ ∀ kn ∈ r, nodeIntsOK kn.2 = true := by
+  simp [IntsOK, regIntsOK, List.all_eq_true]
+
+theorem intsOK_set (r : PDict Int Node) (id : Int) (n : Node) (h : IntsOK r) (hn : nodeIntsOK n = true) :
+    IntsOK (r.set id n) := by
+  rw [intsOK_iff] at h ⊢
+  intro kn hkn
+  rcases PDict.mem_set_or r id n kn hkn with rfl | hm
+  · exact hn
+  · exact h kn hm
+
+theorem ints_requireNode (id : Int) : HRetI IntsOK (requireNode id) fun n => nodeIntsOK n = true := by
+  refine ret_bind ret_getSt fun st hst => ?_
+  split
+  · next n hn => exact ret_pure n ((intsOK_iff _).mp hst (id, n) (PDict.mem_of_get? _ _ _ hn))
+  · exact ret_raise _
+
+theorem ints_setNode (id : Int) (n : Node) (h : nodeIntsOK n = true) : HPresI IntsOK (setNode id n) :=
+  pres_modifySt _ fun s hs => intsOK_set s.nodes id n hs h
+
+/-- A freshly created node: heartbeat 0, no children. -/
+theorem nodeInts_fresh (ntype : Int) (pv : Str) (h : KeyOK ntype) : nodeIntsOK { ntype := ntype, pv := pv } = true := by
+  have h0 : intOK 0 = true := by decide
+  simp [nodeIntsOK, (intOK_iff _).mpr h, h0]
+
+/-- Attributes other than type, heartbeat and children do not matter. -/
+theorem nodeInts_congr (n n' : Node) (h : nodeIntsOK n = true) (ht : n'.ntype = n.ntype) (hb : n'.heartbeat = n.heartbeat)
+    (hc : n'.children = n.children) : nodeIntsOK n' = true := by
+  simpa only [nodeIntsOK, ht, hb, hc] using h
+
+theorem nodeInts_heartbeat (n n' : Node) (beat : Int) (h : nodeIntsOK n = true) (hk : KeyOK beat) (ht : n'.ntype = n.ntype)
+    (hb : n'.heartbeat = beat) (hc : n'.children = n.children) : nodeIntsOK n' = true := by
+  simp only [nodeIntsOK, Bool.and_eq_true, ht, hb, hc] at h ⊢
+  exact ⟨⟨h.1.1, (intOK_iff _).mpr hk⟩, h.2⟩
+
+theorem nodeInts_child (n : Node) (key : Int) (c : Child) (h : nodeIntsOK n = true)
+    (hc : n.children.get? key = some c) : childIntsOK c = true := by
+  simp only [nodeIntsOK, Bool.and_eq_true, List.all_eq_true] at h
+  exact h.2 (key, c) (PDict.mem_of_get? _ _ _ hc)
+
+/-- Replacing or adding a child with printable id and type. -/
+theorem nodeInts_setChild (n : Node) (key : Int) (c : Child) (h : nodeIntsOK n = true) (hc : childIntsOK c = true) :
+    nodeIntsOK { n with children := n.children.set key c } = true := by
+  simp only [nodeIntsOK, Bool.and_eq_true, List.all_eq_true] at h ⊢
+  refine ⟨h.1, fun kc hkc => ?_⟩
+  rcases PDict.mem_set_or _ _ _ kc hkc with rfl | hm
+  · exact hc
+  · exact h.2 kc hm
+
+theorem ints_hIdRequest (m : Msg) : HPresI IntsOK (hIdRequest m) := by
+  refine ret_bind ret_getSt fun st _ => ?_
+  split
+  · exact ret_raise _
+  · exact ret_seq (pres_modifySt _ fun s hs => intsOK_set _ _ _ hs (by decide))
+      (ret_seq (pres_gwSend _ _) (pres_pure _))
+
+theorem ints_hBattery (m : Msg) : HPresI IntsOK (hBattery m) := by
+  refine ret_bind (ints_requireNode _) fun node hnode => ?_
+  refine ret_bind (ret_convertExn (Q := fun _ => True) _ _ _ fun _ _ => trivial) fun level _ => ?_
+  split
+  · exact ret_seq (ints_setNode _ _ (nodeInts_congr node _ hnode rfl rfl rfl)) (pres_pure _)
+  · exact ret_raise _
+
+theorem ints_hSketchName (m : Msg) : HPresI IntsOK (hSketchName m) :=
+  ret_bind (ints_requireNode _) fun node hn =>
+    ret_seq (ints_setNode _ _ (nodeInts_congr node _ hn rfl rfl rfl)) (pres_pure _)
+
+theorem ints_hSketchVersion (m : Msg) : HPresI IntsOK (hSketchVersion m) :=
+  ret_bind (ints_requireNode _) fun node hn =>
+    ret_seq (ints_setNode _ _ (nodeInts_congr node _ hn rfl rfl rfl)) (pres_pure _)
+
+/-- The heartbeat a handler stores is `int(payload)`: printable. -/
+theorem ret_heartbeatValue {I : PDict Int Node → Prop} (classes : List PyExn) (m : Msg) :
+    HRetI I (heartbeatValue classes m) KeyOK := by
+  refine ret_convertExn _ _ _ fun beat hb => ?_
+  cases hp : pyInt? m.payload with
+  | none => rw [hp] at hb; cases hb
+  | some n => rw [hp] at hb; cases hb; exact pyInt?_keyOK _ _ hp
+
+theorem ints_hHeartbeat20 (m : Msg) : HPresI IntsOK (hHeartbeat20 m) :=
+  ret_bind (ints_requireNode _) fun node hn =>
+    ret_bind (ret_heartbeatValue _ _) fun beat hb =>
+      ret_seq (ints_setNode _ _ (nodeInts_heartbeat node _ beat hn hb rfl rfl rfl)) (pres_flush _)
+
+theorem ints_hHeartbeat22 (m : Msg) : HPresI IntsOK (hHeartbeat22 m) :=
+  ret_bind (ints_requireNode _) fun node hn =>
+    ret_bind (ret_heartbeatValue _ _) fun beat hb =>
+      ret_seq (ints_setNode _ _ (nodeInts_heartbeat node _ beat hn hb rfl rfl rfl)) (pres_pure _)
+
+theorem ints_hPreSleep22 (m : Msg) : HPresI IntsOK (hPreSleep22 m) :=
+  ret_bind (ints_requireNode _) fun node hn =>
+    ret_seq (ints_setNode _ _ (nodeInts_congr node _ hn rfl rfl rfl)) (pres_flush _)
+
+/-- A stored value changes neither id nor type of the child. -/
+theorem ints_hSet (m : Msg) : HPresI IntsOK (hSet m) := by
+  refine ret_bind (ints_requireNode _) fun node hn => ?_
+  split
+  · exact ret_raise _
+  · next child hc =>
+    refine ret_seq (ints_setNode _ _ (nodeInts_setChild node _ _ hn (nodeInts_child node _ child hn hc))) ?_
+    split
+    · exact ret_seq (pres_gwSend _ _) (pres_pure _)
+    · exact pres_pure _
+
+theorem intsOK_leaves : LeavesKeep IntsOK := by
+  intro env b f h m hm
+  cases b <;> simp only [runLeaf, Option.some.injEq, reduceCtorEq] at h <;> subst h
+  · exact ints_hSet m
+  · exact pres_hReq m
+  · exact pres_hVersion m
+  · exact ints_hIdRequest m
+  · exact pres_hConfig env m
+  · exact pres_hTime env m
+  · exact ints_hBattery m
+  · exact ints_hSketchName m
+  · exact ints_hSketchVersion m
+  · exact pres_hGatewayReady m
+  · exact pres_hDiscoverResponse m
+  · exact ints_hHeartbeat20 m
+  · exact ints_hHeartbeat22 m
+  · exact ints_hPreSleep22 m
+
+/-- A presented node stores the message's type; a presented child the message's child id and type —
+all three read by `int()` in `decode`. -/
+theorem ints_hPresentation (env : Env) (v : Ver) (m : Msg) (hm : MsgOK m) : HPresI IntsOK (hPresentation env v m) := by
+  simp only [hPresentation]
+  split
+  · refine ret_seq (ints_setNode _ _ (nodeInts_fresh _ _ hm.type)) ?_
+    split
+    · exact presI_runTyped intsOK_leaves env _ m hm
+    · exact pres_pure _
+  · refine ret_bind (ints_requireNode _) fun node hn => ?_
+    refine ret_seq (ints_setNode _ _ (nodeInts_setChild node _ _ hn ?_)) (pres_pure _)
+    simp [childIntsOK, (intOK_iff _).mpr hm.child, (intOK_iff _).mpr hm.type]
+
+/-- One iteration of `Gateway.listen` keeps the integers printable. -/
+theorem ints_recv (env : Env) (line : Str) : HPresI IntsOK (recv env line) :=
+  presI_recv intsOK_leaves ints_hPresentation env line
+
+/-- **Every registry a history reaches has printable integers**, from any starting registry that has. -/
+theorem runOps_regIntsOK (st : St) (ops : List Op) (h : regIntsOK st.nodes = true) :
+    regIntsOK (runOps st ops).nodes = true :=
+  stateAfter_inv (I := IntsOK) ints_recv st ops h
 
 end AioMySensors
